@@ -5,7 +5,7 @@ in : {"gens":[{"wrapped":bool,"code":[instr…]}…], "script":[step…], "keeps
      instr: ["enter",a] ["exit"] ["log",m] ["yield",v|null] ["yieldLast"] ["ret",v|null] ["raise",e]
             ["try"] ["catch",all] ["endcatch"] ["resume",j,inp]
      inp  : ["send",v|null] ["throw",e] ["close"]
-     step : ["enter",a] ["exit"] ["resume",i,inp]
+     step : ["enter",a] ["exit"] ["resume",i,inp] ["resume",i,inp,"copy"|"fresh"|"thread"]  (resumed from another Context)
 out: {"steps":[{"out":null|{"y":v}|{"r":v}|{"x":exc},"before":a|null,"after":a|null}…],
       "obs":[{"gen","tag","seen","expected"}…],   (oldest first; tag 0 = start of the body: expected = resumer's action)
       "nested":[{"by","gen","before","after"}…]}
@@ -60,7 +60,11 @@ def parseStep (j : Json) : Except String DStep := do
   | "resume" => do
     let i ← x.getNat?
     let inp ← parseInp (a[2]?.getD Json.null)
-    pure (.resume i inp)
+    match a[3]? with
+    | some (Json.str "copy") => pure (.resumeIn false i inp)
+    | some (Json.str "fresh") => pure (.resumeIn true i inp)
+    | some (Json.str "thread") => pure (.resumeIn true i inp)
+    | _ => pure (.resume i inp)
   | t => throw s!"bad step {t}"
 
 def parseGen (j : Json) : Except String (Bool × List Instr) := do
